@@ -205,6 +205,8 @@ func runC15(ctx *core.Ctx) {
 				in = b.String()[:n]
 			case 1: // whitespace only
 				in = gen.Pick(r, []string{"\r\u00a0\r\n", "\u00a0\r", "\u2028\r\n", "\u3000\r", "\r\n\u0085", " \r ", "\x0b\r", " ", "\n", "\t \r\n", "  ", "\f", " ", "  ", "\x0b"})
+			case 5: // a long run of white space in front of the content (more than any peek window)
+				in = strings.Repeat(gen.Pick(r, []string{" ", "\n", " \t", "\r\n"}), []int{511, 512, 513, 600, 4096, 4097, 9000}[r.Intn(7)]) + in
 			case 2:
 				in = gen.Pick(r, []string{"", "a", "<", "&", "\x00", "<a", "&am"})
 			}
